@@ -66,7 +66,7 @@ struct Prior { pl::Instance I; bool fresh = false; };
 
 static void prepare(pl::Instance &I, int prior, unsigned devid) {
     I.create(44100); OPN2_MIDIPlayer *d = I.dev;
-    opn2_setNumChips(d, 1); opn2_openBankData(d, g_bank.data(), (long)g_bank.size());
+    opn2_setNumChips(d, 1); pl::must(opn2_openBankData(d, g_bank.data(), (long)g_bank.size()), "opn2_openBankData(generated bank)", d);
     opn2_setDeviceIdentifier(d, devid);
     // priors 6..9: the device id was set before a call that re-initialises MIDI state (it is an instance setting and stays)
     if(prior == 6) opn2_reset(d); else if(prior == 7) { static const uint8_t smf[] = {'M','T','h','d',0,0,0,6,0,0,0,1,0,96,'M','T','r','k',0,0,0,8,0,0x90,60,100,96,0x80,60,0}; opn2_openData(d, smf, sizeof smf); }
